@@ -230,9 +230,9 @@ Proof.
       (eapply VInvV_ext; [| | |exact Hi]; reflexivity). }
   pose proof (refresh_vinv c s1 false I1) as I2.
   destruct (refresh c s1) as [sr raised]. cbn [fst] in I2.
-  assert (I3 : VInvV c (after_refresh c s sr) false).
-  { unfold after_refresh. destruct (c_restores_ovf c); [|assumption]. apply (VInvV_ext c sr); try reflexivity. assumption. }
-  set (s2 := after_refresh c s sr) in *.
+  assert (I3 : VInvV c (after_refresh c s sr raised) false).
+  { unfold after_refresh. destruct (restores c raised); [|assumption]. apply (VInvV_ext c sr); try reflexivity. assumption. }
+  set (s2 := after_refresh c s sr raised) in *.
   assert (I4 : VInvV c (if raised then s2 else emit s2 [NL]) false).
   { destruct raised; [assumption|]. apply emit_GV; [apply GV_lf|assumption]. }
   set (s3 := if raised then s2 else emit s2 [NL]) in *.
@@ -377,8 +377,8 @@ Proof.
   pose proof (not_fired _ _ R eq_refl) as H2. intros H3. exfalso.
   assert (E : forall x, nrender x = nrender sr -> nbuild x = nbuild sr -> fired c x = false).
   { intros x E1 E2. rewrite (fired_ext c sr x); assumption. }
-  assert (Ear : nrender (after_refresh c s sr) = nrender sr /\ nbuild (after_refresh c s sr) = nbuild sr).
-  { unfold after_refresh. destruct (c_restores_ovf c); split; reflexivity. }
+  assert (Ear : nrender (after_refresh c s sr false) = nrender sr /\ nbuild (after_refresh c s sr false) = nbuild sr).
+  { unfold after_refresh. destruct (restores c false); split; reflexivity. }
   destruct Ear as [Ea1 Ea2].
   destruct (c_transient c); cbn [fst] in H3; rewrite E in H3; try discriminate;
     unfold forget; destruct (c_resets_shape c); cbn; assumption.
